@@ -203,8 +203,10 @@ def gen_c12(rng, tier, index):
                               'tilde'])
     sc['perturb_seed'] = rng.randrange(10**9)
     if mode == 'include':
-        sc['route'] = rng.choice(['from_file', 'from_file', 'listlua',
-                                  'luamin'])
+        sc['route'] = rng.choice(['from_file', 'from_file', 'from_file',
+                                  'listlua', 'luamin', 'stats', 'listtokens',
+                                  'printast', 'luafind', 'writep8', 'luafmt',
+                                  'build-lua-cart', 'build-gfx-cart'])
         sc['tab'] = rng.choice([None, None, None, 0, 1])
     else:
         sc['route'] = 'build'
@@ -421,11 +423,25 @@ def execute(sc):
             elif sc['route'] == 'listlua':
                 rc = tool.main(['listlua', arg])
                 result_code = w.out.getvalue().encode('latin-1', 'replace')
-            elif sc['route'] == 'luamin':
-                rc = tool.main(['luamin', '--keep-all-names', arg])
+            elif sc['route'] in ('luamin', 'writep8', 'luafmt'):
+                rc = tool.main({'luamin': ['luamin', '--keep-all-names'],
+                                'writep8': ['writep8'],
+                                'luafmt': ['luafmt']}[sc['route']] + [arg])
                 p = w.p(base + '/cart_fmt.p8')
                 if os.path.exists(p):
                     with open(p, 'rb') as fh:
+                        result_code = fh.read()
+            elif sc['route'] in ('stats', 'listtokens', 'printast',
+                                 'luafind'):
+                argv = [sc['route']] + (['marker'] if sc['route'] == 'luafind'
+                                        else []) + [arg]
+                rc = tool.main(argv)
+                result_code = w.out.getvalue().encode('latin-1', 'replace')
+            elif sc['route'] in ('build-lua-cart', 'build-gfx-cart'):
+                rc = tool.main(['build', out_abs, '--lua' if sc['route'] ==
+                                'build-lua-cart' else '--gfx', arg])
+                if os.path.exists(out_abs):
+                    with open(out_abs, 'rb') as fh:
                         result_code = fh.read()
             else:
                 argv = ['build', out_abs, '--lua', arg]
